@@ -3,10 +3,27 @@ from harness import enc
 
 
 def _prime_all(a):
+    """call every query once (all their results are discarded): whatever a query memoises on the object
+    is then stale after the edits that follow, and every query the check makes later is a second call"""
     a.labels()
     a.get_timeline(copy=False)
     for l in a.labels():
         a.label_timeline(l, copy=False)
+        a.label_support(l)
+        a.label_duration(l)
+    a.chart()
+    a.chart(percent=True) if a else None
+    a.argmax()
+    a.get_overlap()
+    a.support()
+    list(a.itertracks(yield_label=True))
+    list(a.itersegments())
+    list(a.co_iter(a))
+    a * a
+    len(a), bool(a), str(a)
+    for s in list(a.itersegments())[:3]:
+        a.get_tracks(s), a.get_labels(s), (s in a), a.crop(s), a.extrude(s)
+    a.copy(), a.empty()
 
 
 def cache_mode(recs):
